@@ -32,3 +32,21 @@ package sign
 //@   ensures[C20] result1 == nil ==> (v_result != nil && len(messageHash) > 0 && result0 != nil)
 //@   ensures[C20] result1 == nil ==> forall(j, party.ID, inslice(signers, j) ==> indom(v_result.VerificationShares.Points, j))
 //@   loop 1: invariant each(helper.partyIDs[:rangeindex+1], j, indom(v_result.VerificationShares.Points, j))
+
+// ---- hedged nonces (C11): the nonce stream is the digest of a hash KEYED with a key derived from the secret share,
+// over (session hash, the whole message, 32 fresh random bytes) in this order; d_i and e_i are the first two unit
+// scalars drawn from it and the published commitments are d_i*G, e_i*G. So two signing contexts that differ in the
+// share, the session (hence signer set, session id, variant), or the message give different keyed-hash inputs even
+// when the random source repeats.
+//@ spec fn scu_from(Int) Int
+//@ spec fn hadvu(Int) Int
+//@ func (*round1).Finalize
+//@   requires r != nil && r.Helper != nil && r.s_i != nil
+//@   let key = keyed(kdf(deriveHashKeyContext, benc(iface(r.s_i))))
+//@   let S = kdigest(key, wcat(wcat(wcat(wempty(), lastbytes(Sum)), bval(r.M)), bval(a)))
+//@   assert_at[C11] ScalarUnit "d_i := sample.ScalarUnit(nonceDigest, r.Group())": hstate(arg0) == S
+//@   assert_at[C11] ScalarUnit "e_i := sample.ScalarUnit(nonceDigest, r.Group())": hstate(arg0) == hadvu(S) && scval(d_i) == scu_from(S)
+//@   assert_at[C11] BroadcastMessage "r.BroadcastMessage(out, &broadcast2{D_i: D_i, E_i: E_i})": ptval(D_i) == act(scu_from(S), gen()) && ptval(E_i) == act(scu_from(hadvu(S)), gen())
+//@   assert_at[C11] BroadcastMessage "r.BroadcastMessage(out, &broadcast2{D_i: D_i, E_i: E_i})": typeis(arg2, *broadcast2) && arg2.(*broadcast2).D_i == D_i && arg2.(*broadcast2).E_i == E_i
+//@   assert_at[C11] Write "nonceHasher.Write(r.Hash().Sum())": wlog(arg0) == wempty() && hstate(arg0) == key
+//@   assert_at[C11] Write "nonceHasher.Write(r.Hash().Sum())": bval(arg1) == hsum(hstate(r.Helper.hash))
